@@ -21,24 +21,30 @@ type Solver struct {
 	// equation as a triggered axiom (solvers unfold define-fun-rec eagerly and can diverge on goals that need no
 	// unfolding). The axiom says no more than the definition, so "unsat" stands; any other answer is ignored.
 	AxRec bool
+	// NoRec: as AxRec but without the defining equations at all: recursive spec functions become uninterpreted.
+	// Decides the many goals that only need equal arguments to give equal values; again only "unsat" stands.
+	NoRec bool
 }
 
 var solvers = []Solver{
-	{"z3-new", func(f string, t int) []string { return []string{"z3-new", fmt.Sprintf("-T:%d", t), "-smt2", f} }, false},
-	{"z3", func(f string, t int) []string { return []string{"z3", fmt.Sprintf("-T:%d", t), "-smt2", f} }, false},
+	{"z3-new", func(f string, t int) []string { return []string{"z3-new", fmt.Sprintf("-T:%d", t), "-smt2", f} }, false, false},
+	{"z3", func(f string, t int) []string { return []string{"z3", fmt.Sprintf("-T:%d", t), "-smt2", f} }, false, false},
 	// pure E-matching configurations: much faster on obligations with many triggered quantifiers
 	{"z3-new-ematch", func(f string, t int) []string {
 		return []string{"z3-new", fmt.Sprintf("-T:%d", t), "smt.mbqi=false", "auto_config=false", "-smt2", f}
-	}, false},
+	}, false, false},
 	{"z3-ematch", func(f string, t int) []string {
 		return []string{"z3", fmt.Sprintf("-T:%d", t), "smt.mbqi=false", "auto_config=false", "-smt2", f}
-	}, false},
+	}, false, false},
 	{"cvc5", func(f string, t int) []string {
 		return []string{"cvc5", fmt.Sprintf("--tlimit=%d", t*1000), "--lang=smt2", f}
-	}, false},
+	}, false, false},
 	{"z3-new-axrec", func(f string, t int) []string {
 		return []string{"z3-new", fmt.Sprintf("-T:%d", t), "smt.mbqi=false", "auto_config=false", "-smt2", f}
-	}, true},
+	}, true, false},
+	{"z3-new-norec", func(f string, t int) []string {
+		return []string{"z3-new", fmt.Sprintf("-T:%d", t), "smt.mbqi=false", "auto_config=false", "-smt2", f}
+	}, false, true},
 }
 
 // axiomatizeRec rewrites (define-fun-rec f ((a S)...) R body) lines into (declare-fun f (S...) R) and
@@ -78,7 +84,7 @@ func axiomatizeRec(script string) (string, bool) {
 		}
 		app := "(" + name + " " + strings.Join(names, " ") + ")"
 		out = append(out, "(declare-fun "+name+" ("+strings.Join(sorts, " ")+") "+ret+")")
-		out = append(out, "(assert (forall ("+strings.Join(binds, " ")+") (! (= "+app+" "+body+") :pattern ("+app+"))))")
+		out = append(out, "(assert (forall ("+strings.Join(binds, " ")+") (! (= "+app+" "+body+") :pattern ("+app+")))) ; recdef")
 	}
 	return strings.Join(out, "\n"), true
 }
@@ -171,10 +177,18 @@ func Discharge(o *Obligation, dir string, timeoutS int, all bool) {
 	file := filepath.Join(dir, fmt.Sprintf("%s_%d.smt2", mangle(o.Name), atomic.AddInt64(&smtSeq, 1)))
 	script := o.Script()
 	os.WriteFile(file, []byte(script), 0o644)
-	axFile := ""
+	axFile, noRecFile := "", ""
 	if ax, ok := axiomatizeRec(script); ok {
 		axFile = strings.TrimSuffix(file, ".smt2") + "_axrec.smt2"
 		os.WriteFile(axFile, []byte(ax), 0o644)
+		var keep []string
+		for _, l := range strings.Split(ax, "\n") {
+			if !strings.HasSuffix(l, " ; recdef") {
+				keep = append(keep, l)
+			}
+		}
+		noRecFile = strings.TrimSuffix(file, ".smt2") + "_norec.smt2"
+		os.WriteFile(noRecFile, []byte(strings.Join(keep, "\n")), 0o644)
 	}
 	ctx, cancel := context.WithCancel(context.Background())
 	defer cancel()
@@ -188,10 +202,16 @@ func Discharge(o *Obligation, dir string, timeoutS int, all bool) {
 			}
 			f = axFile
 		}
+		if sv.NoRec {
+			if noRecFile == "" {
+				continue
+			}
+			f = noRecFile
+		}
 		nrun++
 		go func(sv Solver, f string) {
 			r := runSolver(ctx, sv, f, timeoutS)
-			if sv.AxRec && r.status != "unsat" {
+			if (sv.AxRec || sv.NoRec) && r.status != "unsat" {
 				r.status = "unknown"
 			}
 			ch <- r
